@@ -453,12 +453,6 @@ Proof.
   exact (self_contained_script_runs_in_program St exec flag_set trainer_beaten cmp_var cmp_var_value case_matches pre code post HP body term tail E T L HS name m s).
 Qed.
 End EMBED_CLOSED.
-Print Assumptions script_steps_in_program.
-Print Assumptions script_steps_in_program_closed.
-Print Assumptions script_runs_in_program_closed.
-Print Assumptions script_runs_in_program_continued_closed.
-Print Assumptions script_runs_in_program_unknown_closed.
-Print Assumptions self_contained_script_runs_in_program_closed.
 
 (* ================================================================================================================== *)
 (* PART 3: the code of an emitted script is closed                                                                     *)
@@ -512,7 +506,6 @@ Proof.
   split; [|split; [exact T|reflexivity]].
   rewrite HC, app_nil_r, <- !app_assoc. reflexivity.
 Qed.
-Print Assumptions rendered_script_closed.
 
 (* ================================================================================================================== *)
 (* PART 4: the program's instruction list contains the code of each of its scripts as a segment                        *)
@@ -615,7 +608,6 @@ Proof.
   destruct (seg_app_r _ _ (emit_texts mp (texts p) n) SG) as (pre & post & EQ).
   exists code, pre, post. split; [exact R|exact EQ].
 Qed.
-Print Assumptions program_contains_scripts.
 
 (* ================================================================================================================== *)
 (* PART 5: C01 against the whole program's instruction list                                                            *)
@@ -663,7 +655,6 @@ Proof.
   rewrite chunk_labels_ulab.
   eapply Permutation_NoDup; [|exact ND]. apply Permutation_flat_map. apply (rendered_perm optimize body w HW HS).
 Qed.
-Print Assumptions code_labels_distinct_source.
 
 (* the script's own name is a label of its code *)
 Lemma labelpart_in_blocks mp name glob G regs d c x : forall order nx,
@@ -832,9 +823,6 @@ Proof.
   - intros m s. destruct (B m s) as (n & R). exists n. rewrite EQ. exact R.
 Qed.
 End C01PROG.
-Print Assumptions program_scripts_correct.
-Print Assumptions program_script_goto_continues.
-Print Assumptions program_self_contained_scripts_correct.
 
 (* ================================================================================================================== *)
 (* PART 6: example - a program of two scripts; the first leaves with `goto(Second)`                                    *)
@@ -966,6 +954,3 @@ Example ex_run_in_program :
   trun ex_prog (ex_name 0) 40 1 = ([t "lock "; t "faceplayer "; t "msgbox Second_Text_0"; t "release "], Done OEnd).
 Proof. vm_compute. reflexivity. Qed.
 End EXAMPLE.
-Print Assumptions ex_hyp_segment.
-Print Assumptions ex_first_in_program.
-Print Assumptions ex_second_in_program.
